@@ -116,8 +116,8 @@ def run(ctx: Ctx) -> None:
     top = [s for s in stmts_of(w) if isinstance(s, ast.If)]
     if not top:
         raise AnalysisError("write_data_array: 2D/3D branch not found")
-    is2d = equivalent(boolform(top[0].test), boolform(ast.parse(f"len({da}.shape) == 2", mode="eval").body)) is None
-    ctx.ob("C19.WRITE", COM, top[0], f"branch on {src(top[0].test)}", is2d, expected=f"len({da}.shape) == 2")
+    is2d = any(equivalent(boolform(top[0].test), boolform(ast.parse(t, mode="eval").body)) is None for t in (f"len({da}.shape) == 2", f"{da}.ndim == 2", f"{da}.data.ndim == 2", f"len({da}.data.shape) == 2"))
+    ctx.ob("C19.WRITE", COM, top[0], f"branch on {src(top[0].test)}", is2d, expected=f"len({da}.shape) == 2 (the rank of the array as given)", detail="the single-band writer sets no band description: it may be chosen only for a 2-D array, never for a (rows, cols, 1) stack of one named indicator (e.g. after a squeeze)")
     for label, blk, nd in (("2D", top[0].body, 2), ("3D", top[0].orelse, 3)):
         sh = [s for s in blk if isinstance(s, ast.Assign) and isinstance(s.targets[0], ast.Tuple) and canon(s.value) == f"{da}.shape"]
         names = [canon(e) for e in sh[0].targets[0].elts] if sh else []
@@ -135,7 +135,7 @@ def run(ctx: Ctx) -> None:
         else:
             okw = False
             det = ""
-            if len(wr) == 1 and enclosing_loops(wr[0]):
+            if len(wr) == 1 and enclosing_loops(wr[0]) and len(names) == 3 and len(wr[0].args) >= 2:
                 lp_ = enclosing_loops(wr[0])[0]
                 v = lp_.target.id if isinstance(lp_.target, ast.Name) else "?"
                 it = canon(lp_.iter)
@@ -245,6 +245,8 @@ MUTANTS = [
     {"id": "sort-keys", "file": COM, "old": "json.dump(user_cfg, file_, indent=2)", "new": "json.dump(user_cfg, file_, indent=2, sort_keys=True)"},
     {"id": "width-height-swapped", "file": COM, "old": "            width=col,\n            height=row,\n            count=1,", "new": "            width=row,\n            height=col,\n            count=1,"},
     {"id": "band-off-by-one", "file": COM, "old": "source_ds.write(data_array.data[:, :, dsp - 1], dsp)", "new": "source_ds.write(data_array.data[:, :, dsp - 1], depth + 1 - dsp)"},
+    {"id": "squeeze-before-rank-test", "edits": [(COM, "    if len(data_array.shape) == 2:\n        row, col = data_array.shape\n", "    data = np.squeeze(data_array.data)\n    if data.ndim == 2:\n        row, col = data.shape\n")]},
+    {"id": "eq-ndim", "kind": "equiv", "file": COM, "old": "    if len(data_array.shape) == 2:\n", "new": "    if data_array.ndim == 2:\n"},
     {"id": "eq-moveaxis", "kind": "equiv", "file": COM, "old": "            for dsp in range(1, depth + 1):\n                source_ds.write(data_array.data[:, :, dsp - 1], dsp)\n", "new": "            source_ds.write(np.moveaxis(data_array.data, 2, 0))\n"},
     {"id": "eq-zero-based-loop", "kind": "equiv", "file": COM, "old": "            for dsp in range(1, depth + 1):\n                source_ds.write(data_array.data[:, :, dsp - 1], dsp)\n", "new": "            for dsp in range(depth):\n                source_ds.write(data_array.data[:, :, dsp], dsp + 1)\n"},
 ]
